@@ -205,6 +205,7 @@ func rulesC20(c *Ctx) {
 	c.Rule("C20.parens", "ColumnNames looks through parentheses around a field's expression when it tests for a top()/bottom() call, as Field.Name does when it names the column: `(top(value, host, 2))` is the same selector and yields the same extra tag columns")
 	suffixC20(c, cn)
 	skipFilledC20(c, cn)
+	aliasVerbatimC20(c, cn)
 	stripperTotalRule(c, "C20.parens")
 	parenTransparencyRule(c, "C20.parens", "(*SelectStatement).ColumnNames: selector call inside parentheses", p.SSAFunc(cn), "*Call", "the field expression is tested for *Call directly: for `SELECT (top(value, host, 2))` the tag argument gets no column, though Field.Name names the field `top` all the same")
 }
